@@ -247,8 +247,13 @@ func extractTarDirectory(dirPath, dirName string, r io.Reader, buf []byte, prese
 			return err
 		}
 
-		// Change access time and modification time if possible (error ignored)
-		_ = os.Chtimes(filePath, header.AccessTime, header.ModTime)
+		// Change access time and modification time if possible (error ignored).
+		// os.Chtimes follows a symbolic link: for a link entry (or a hard link
+		// to a link) it would set the times of whatever the link points to,
+		// which may be a file outside of the base path.
+		if info, err := os.Lstat(filePath); err == nil && info.Mode()&os.ModeSymlink == 0 {
+			_ = os.Chtimes(filePath, header.AccessTime, header.ModTime)
+		}
 
 		// Restore full mode bits
 		if preservePermissions && (header.Typeflag == tar.TypeReg || header.Typeflag == tar.TypeDir) {
